@@ -107,7 +107,12 @@ def run_histories(ctx, res, n_hist, max_steps, store_kinds=("memory",), nfun=Non
     maxlen = 10000
     for h in range(n_hist):
         store_kind = store_kinds[h % len(store_kinds)]
-        w = progs.gen_chain_world(rng) if allow == "chain" else progs.gen_world(rng, nfun=nfun, allow=allow)
+        if allow == "chain":
+            w = progs.gen_chain_world(rng)
+        elif allow == "multi":
+            w = progs.gen_world(rng, nfun=nfun, multi=True)
+        else:
+            w = progs.gen_world(rng, nfun=nfun, allow=allow)
         if world_filter and not world_filter(w):
             continue
         steps = gen_history(rng, rng.randint(2, max_steps), edit_kinds=edit_kinds)
